@@ -293,6 +293,7 @@ func c02Gen(r *rand.Rand, tier string) []any {
 		}
 		for k := 0; k < per; k++ {
 			q := rReq{Method: rGenMethod(r, routes), Path: rGenPath(r, routes)}
+			q.Raw = r.Intn(5) == 0 // the router sees URL.RawPath when it is set
 			if len(hosts) > 0 {
 				switch r.Intn(4) {
 				case 0:
